@@ -49,6 +49,9 @@ type PathnameDirectory struct {
 // Call the function with the arguments provided.
 func (f *PathnameDirectory) Call(s *slip.Scope, args slip.List, depth int) slip.Object {
 	slip.CheckArgCount(s, depth, f, args, 1, 3)
+	if len(args) == 2 {
+		slip.ErrorPanic(s, depth, "extra arguments that are not keyword and value pairs")
+	}
 	path, ok := args[0].(slip.String)
 	if !ok {
 		slip.TypePanic(s, depth, "pathname", args[0], "string")
